@@ -171,13 +171,11 @@ class C06(Engine):
     # ---- references ------------------------------------------------------------------------------
     def refs_needed(self, sc):
         out = []
-        kind = sc.get("kind")
-        if kind in ("pair", "hist", "listing", "hashseed"):
-            for op in sc["ops"]:
+        tf = tree_files(sc["tree"]) if sc.get("tree") else []
+        for op in sc["ops"]:
+            if op["op"] == "api":
                 out.append(ref_api(sc, op["file"], op.get("debug", 0), op.get("R")))
-        elif kind in ("clihist", "spelling"):
-            tf = tree_files(sc["tree"])
-            for op in sc["ops"]:
+            elif op["op"] == "cli":
                 for p, fid in tf:
                     out.append(ref_cli(sc, fid, tuple(op.get("opts") or ())))
         return out
@@ -187,13 +185,17 @@ class C06(Engine):
         kind = sc.get("kind")
         vs = []
         ops = res["ops"]
-        if kind in ("pair", "hist", "listing", "hashseed"):
-            pristine = ops[0].get("state_before") if ops else None
-            for i, (op, o) in enumerate(zip(sc["ops"], ops)):
+        pristine = ops[0].get("state_before") if ops else None
+        tf = dict(tree_files(sc["tree"])) if sc.get("tree") else {}
+        for i, (op, o) in enumerate(zip(sc["ops"], ops)):
+            delta = state_delta(pristine, o.get("state_before"))
+            if op["op"] == "api":
                 key, _ = ref_api(sc, op["file"], op.get("debug", 0), op.get("R"))
                 ref = refs[key]
                 if ref.get("killed"):
                     continue
+                if op.get("faults"):
+                    continue      # an op whose own read was made to fail is a predecessor only; nothing to compare
                 want = api_sig(ref["ops"][0])
                 got = api_sig(o)
                 if want[0] == "slow" or got[0] == "slow":
@@ -206,7 +208,6 @@ class C06(Engine):
                         site = f"hashseed: {got[0]} vs alone {want[0]}"
                         clause = "C06.hash-seed"
                     else:
-                        delta = state_delta(pristine, o.get("state_before"))
                         site = f"api state[{','.join(delta) or 'unchanged'}] -> {got[0]}" + \
                                (f" {got[1]}" if got[0] == "internal" else "") + f" vs alone {want[0]}"
                         clause = "C06.same-as-alone"
@@ -214,28 +215,24 @@ class C06(Engine):
                     vs.append(Violation(self.prop, clause, site,
                                         {"op_index": i, "file": f["name"], "origin": f.get("origin"),
                                          "observed": short_sig(got), "alone": short_sig(want),
-                                         "history": [file_of(sc, x["file"])["name"] for x in sc["ops"][:i]]}))
-        elif kind in ("clihist", "spelling"):
-            tf = dict(tree_files(sc["tree"]))
-            pristine = ops[0].get("state_before") if ops else None
-            for i, (op, o) in enumerate(zip(sc["ops"], ops)):
+                                         "history": [file_of(sc, x["file"])["name"] if "file" in x else " ".join(x.get("argv", []))
+                                                     for x in sc["ops"][:i]]}))
+            elif op["op"] == "cli":
                 opts = tuple(op.get("opts") or ())
                 cwd = op.get("cwd", ".")
-                delta = state_delta(pristine, o.get("state_before"))
 
-                def refsig(fid):
+                def refsig(fid, opts=opts):
                     key, _ = ref_cli(sc, fid, opts)
                     r = refs[key]
                     if r.get("killed"):
                         return None
                     return cli_sig(r["ops"][0])
-                v = self.judge_cli_op(sc, op, o, tf, refsig, cwd, delta, i, kind)
-                vs += v
+                vs += self.judge_cli_op(sc, op, o, tf, refsig, cwd, delta, i, kind)
         return vs
 
     def judge_cli_op(self, sc, op, o, tf, refsig, cwd, delta, i, kind):
         vs = []
-        clause = "C06.same-as-alone" if kind == "clihist" else "C06.path-spelling"
+        clause = "C06.path-spelling" if kind == "spelling" else "C06.same-as-alone"
 
         def mk(site, detail):
             return Violation(self.prop, clause, f"cli state[{','.join(delta) or 'unchanged'}] {site}", detail)
@@ -247,20 +244,19 @@ class C06(Engine):
             got = cli_sig(o)
             if not any(s is not None and s[0] == got[0] and s[1:] == got[1:] for s in all_sigs.values()):
                 # empty selections etc. are C04/C15 matters: only flag when some file was selected
-                if end == "internal" and o.get("exc") in ("UnboundLocalError",) and not o.get("opens"):
+                if end == "internal" and not o.get("opens"):
                     return vs
                 vs.append(mk(f"-> {got[0]} {got[1] if len(got) > 1 else ''} not explained by any file alone",
                              {"op_index": i, "argv": op["argv"], "observed": short_sig(got)}))
             return vs
-        if o.get("reports"):
-            rep = o["reports"][0]
+        for rep in o.get("reports") or []:
             for f in rep["files"]:
                 p = norm_rel(f["path"], cwd)
                 fid = tf.get(p)
                 if fid is None:
                     continue
                 want = all_sigs[p]
-                if want is None:
+                if want is None or want[0] == "slow":
                     continue
                 got = ("verdict", tuple((x[0], x[1], x[2], tuple(tuple(h) for h in x[3])) for x in f["diags"])) \
                     if f["diags"] is not None else ("internal", f["status"], "formatter")
@@ -268,16 +264,24 @@ class C06(Engine):
                     vs.append(mk(f"-> {got[0]} vs alone {want[0]}",
                                  {"op_index": i, "argv": op["argv"], "file": p, "observed": short_sig(got),
                                   "alone": short_sig(want)}))
-            return vs
-        # fatal line
-        got = cli_sig(o)
-        if got[0] == "fatal":
-            out = strip_ansi(o.get("stdout", ""))
-            k = out.find(": Error!\n\t")
+        # every fatal line printed in this invocation: same message as alone
+        out = strip_ansi(o.get("stdout", ""))
+        pos = 0
+        while True:
+            k = out.find(": Error!\n\t", pos)
+            if k < 0:
+                break
             path = out[out.rfind("\n", 0, k) + 1:k]
+            e = out.find("\n", k + len(": Error!\n\t"))
+            msg = out[k + len(": Error!\n\t"): e if e >= 0 else len(out)]
+            pos = k + 1
             p = norm_rel(path, cwd)
-            want = all_sigs.get(p)
-            if want is not None and want != got:
+            want = all_sigs.get(p) if p is not None else None
+            if want is None or want[0] == "slow":
+                continue
+            got = ("fatal", msg.rstrip("\n"))
+            want_cmp = want if want[0] != "fatal" else ("fatal", want[1].split("\n")[0])
+            if got != want_cmp:
                 vs.append(mk(f"-> fatal vs alone {want[0]}",
                              {"op_index": i, "argv": op["argv"], "file": p, "observed": short_sig(got), "alone": short_sig(want)}))
         return vs
